@@ -128,7 +128,8 @@ def run(ctx):
             ctx.hit("general_stream")
         check(ctx, case, reqs, pend)
     for _ in range(ctx.n(9)):       # residue stream: inexact weight sums; empty cells must stay missing after differencing
-        case = A.gen_case(ctx.rng, k=2, N=ctx.rng.choice([9, 14, 25]), general="residue")
+        case = (A.residue_case(ctx.rng) if _ % 3 == 0 else
+                A.gen_case(ctx.rng, k=2, N=ctx.rng.choice([9, 14, 25]), general="residue"))
         case["ignore"] = True if _ % 2 else case["ignore"]
         ctx.hit("residue_stream")
         check(ctx, case, reqs, pend)
